@@ -1365,6 +1365,119 @@ def check_gates(ctx, rng, stats, hist):
 
 
 
+# ------------------------------------------------------------------ scope exit: a bound name used just outside its scope
+
+SCOPE_PRELUDE = ("class O(N, S(int)) {\n  method k(): int = 0\n}\n"
+                 "class E(A, B(int), C(int)) {\n  method k(): int = 0\n}\n"
+                 "class P(val f: int, val g: int) {\n  method k(): int = 0\n}\n")
+
+
+def scope_constructs():
+    """(label, statements with {IN} = a use inside the scope and {OUT} = a use just outside it).
+    The name `v` (or `w`) is bound by exactly one construct and by nothing around it, so a use
+    at {OUT} is an unresolved variable by the language's scoping rules
+    (theorems use_after_pop_unresolved / iflet_binding_not_in_else / binding_not_visible_after)."""
+    return [
+        ("iflet->else", "let r = if let S(v) = o { {IN} } else { {OUT} };"),
+        ("iflet->after", "let r0 = if let S(v) = o { {IN} } else { 0 };\n    let r = {OUT};"),
+        ("iflet->else-if-condition", "let r = if let S(v) = o { {IN} } else if {OUT} > 0 { 1 } else { 2 };"),
+        ("iflet->else-if-let-body", "let r = if let S(v) = o { {IN} } else if let B(u) = e { u + {OUT} } else { 2 };"),
+        ("block-struct-destructure->after", "let r0 = { let { f, g as v } = p; f + {IN} };\n    let r = {OUT};"),
+        ("match-arm->other-arm", "let r = match o { S(v) -> {IN}, N -> {OUT} };"),
+        ("match-arm->after", "let r0 = match o { S(v) -> {IN}, N -> 0 };\n    let r = {OUT};"),
+        ("match-or-pattern->other-arm", "let r = match e { B(v) | C(v) -> {IN}, A -> {OUT} };"),
+        ("block-let->after", "let r0 = { let v = a + 1; {IN} };\n    let r = {OUT};"),
+        ("block-destructure->after", "let r0 = { let { f as v, g as w9 } = p; {IN} + w9 };\n    let r = {OUT};"),
+        ("then-let->else", "let r = if b { let v = 1; {IN} } else { {OUT} };"),
+        ("lambda-param->after", "let fn0 = (v: int) -> {IN} + 1;\n    let r = fn0(1) + {OUT};"),
+        ("lambda-param->sibling-lambda", "let fn0 = (v: int) -> {IN} + 1;\n    let fn1 = (u: int) -> u + {OUT};\n    let r = fn0(1) + fn1(2);"),
+        ("nested-block->outer-block", "let r = { let q0 = { let v = 3; {IN} }; q0 + {OUT} };"),
+    ]
+
+
+def scope_program(rng, stmt, use_out, wrap):
+    body = stmt.replace("{IN}", "v").replace("{OUT}", "v" if use_out else "a")
+    if wrap == 1:
+        body = "let z0 = {\n    " + body.replace("\n", "\n  ") + "\n    r\n    };"
+        tail = "z0"
+    elif wrap == 2:
+        body = "let z0 = if b {\n    " + body + "\n    r\n    } else { 0 };"
+        tail = "z0"
+    elif wrap == 3:
+        body = "let fz = (m0: int) -> {\n    " + body + "\n    r + m0\n    };"
+        tail = "fz(1)"
+    else:
+        tail = "r"
+    return (SCOPE_PRELUDE + "class Main {\n"
+            "  function t(a: int, b: bool, o: O, e: E, p: P): int = {\n    " + body + "\n    " + tail + "\n  }\n"
+            "  function main(): unit = Process.println(\"m\")\n}\n")
+
+
+def check_scopes(ctx, rng, stats, hist):
+    """Every binding construct x {use inside scope (must be accepted), use of exactly that name
+    just outside its scope (must be rejected in Main, compile_sources = Err)} x 4 surrounding
+    contexts; plus function parameter -> sibling function. The same module texts go through
+    builder C13's `ssa` correspondence (real perform_ssa_analysis_on_module vs Model/Scope.lean),
+    which ties the scope theorems of Props/C06c.lean to ssa_analysis.rs on exactly these inputs."""
+    cases = []
+    for label, stmt in scope_constructs():
+        for wrap in range(4):
+            for use_out in (False, True):
+                cases.append((f"scope/{label}/wrap{wrap}/" + ("out-of-scope" if use_out else "in-scope"), use_out,
+                              scope_program(rng, stmt, use_out, wrap)))
+    for use_out in (False, True):
+        src = (SCOPE_PRELUDE + "class Main {\n  function g(v: int): int = v + 1\n"
+               f"  function h(u: int): int = u + {'v' if use_out else 'u'}\n"
+               "  function main(): unit = Process.println(\"m\")\n}\n")
+        cases.append(("scope/function-param->sibling-function/" + ("out-of-scope" if use_out else "in-scope"), use_out, src))
+        src = (SCOPE_PRELUDE + "class Main {\n  function <T> g(v: T): T = v\n"
+               f"  function h(u: int): {'T' if use_out else 'int'} = u\n"
+               "  function main(): unit = Process.println(\"m\")\n}\n")
+        cases.append(("scope/type-param->sibling-function/" + ("out-of-scope" if use_out else "in-scope"), use_out, src))
+    answers = eval_programs([{"sources": {"Main": c[2]}, "entry": "Main", "std": False, "compile": True} for c in cases])
+    for (label, use_out, src), ans in zip(cases, answers):
+        stats["scope"] += 1
+        hist["scope"] = hist.get("scope", 0) + 1
+        verdict = gate_verdict(ans, "Main")
+        prog = {"sources": {"Main": src}, "entry": "Main", "std": False, "compile": True}
+        if use_out and verdict == "reject" and any(e["kind"] in ("CannotResolveName", "CannotResolveClass") for e in ans["errors"]):
+            stats["scope_rejected"] += 1
+        elif not use_out and verdict == "accept":
+            stats["scope_accepted"] += 1
+        elif use_out:
+            stats["scope_slipped"] += 1
+            if stats["scope_slipped"] <= 4:
+                ctx.violation(f"unresolved variable not rejected ({label}): a name used just outside the scope that binds it: {verdict}",
+                              {"protocol": "prog", "mutant": label, "module": "Main", "program": prog, "answer": ans, "why": verdict})
+        else:
+            stats["scope_base_rejected"] += 1
+            if stats["scope_base_rejected"] <= 2:
+                ctx.violation(f"well-scoped program not accepted ({label}): {verdict}",
+                              {"protocol": "prog", "mutant": label, "module": "Main", "program": prog, "answer": ans,
+                               "broken": "scope stream (accept side)"}, no_input=True)
+    # tie of the scope model on exactly these modules (C13's protocol)
+    try:
+        from . import c13
+        common.build_harness("C13")
+        ok, _ = common.build_lean(["drv-c13"])
+        if not ok:
+            raise RuntimeError("drv-c13 does not build")
+        res, other = c13.correspond("ssa", [c[2] for c in cases])
+        stats["scope_ssa_compared"] = len(res)
+        for t, a, m in res:
+            if a != m:
+                stats["scope_ssa_disagree"] += 1
+                if stats["scope_ssa_disagree"] <= 2:
+                    ctx.violation("model/implementation disagreement on protocol ssa (Model/Scope.lean vs ssa_analysis.rs) on a scope-exit program; "
+                                  "the theorems of Props/C06c.lean no longer speak about this code",
+                                  {"protocol": "ssa", "module": t, "impl": a, "model": m, "broken": "correspondence ssa"}, no_input=True)
+        if other:
+            stats["scope_ssa_unparsed"] = len(other)
+    except Exception as ex:      # C13's tools unavailable: C13's own check reports that; say so here
+        ctx.assumptions.append(f"ssa correspondence of builder C13 not run in this check: {ex!r}"[:200])
+
+
+
 def shrink_program(prog, module, base):
     """Structural shrinking of a generated mutant: drop whole `function fK` definitions of the
     mutated module that are identical to the base program's (so the fault stays), as long as the
@@ -1394,7 +1507,7 @@ def run(ctx):
     rng = ctx.rng
     stats = {k: 0 for k in ["tok", "tok_disagree", "tok_literals", "tok_out_of_range", "tok_f1", "lit", "lit_f1",
                             "asg", "asg_disagree", "asg_accept", "asg_anyfree", "slv", "slv_accept",
-                            "gate", "gate_rejected", "gate_accepted", "gate_slipped", "gate_overstrict", "join", "join_rejected", "join_accepted", "join_slipped", "join_base_rejected", "base_programs", "mutants", "mutants_rejected", "mutants_slipped", "tok_oracle_fail", "slv_disagree", "asg_spec_fail", "prog_f1", "prog_f2",
+                            "scope", "scope_rejected", "scope_accepted", "scope_slipped", "scope_base_rejected", "scope_ssa_compared", "scope_ssa_disagree", "scope_ssa_unparsed", "gate", "gate_rejected", "gate_accepted", "gate_slipped", "gate_overstrict", "join", "join_rejected", "join_accepted", "join_slipped", "join_base_rejected", "base_programs", "mutants", "mutants_rejected", "mutants_slipped", "tok_oracle_fail", "slv_disagree", "asg_spec_fail", "prog_f1", "prog_f2",
                             "sample_sites_total", "sample_bases_accepted"]}
     hist, errkinds, samples_out = {}, {}, []
     built = os.path.exists(common.harness_bin("C06")) and os.path.exists(common.driver_bin("C06")) and \
@@ -1423,10 +1536,11 @@ def run(ctx):
         check_types(ctx, rng, ctx.scale(20000, 300000), stats)
         check_joins(ctx, rng, ctx.scale(2, 20), stats, hist)
         check_gates(ctx, rng, stats, hist)
+        check_scopes(ctx, rng, stats, hist)
         check_mutants(ctx, rng, ctx.scale(1600, 12000), ctx.scale(500, 8000), stats, hist, errkinds, samples_out)
     ctx.cov.update({
-        "evaluations": stats["tok"] + stats["lit"] + stats["asg"] + stats["slv"] + stats["mutants"] + stats["join"] + stats["gate"],
-        "distinct_nontrivial": stats["tok_out_of_range"] + stats["asg_accept"] + stats["slv_accept"] + stats["mutants_rejected"] + stats["join_rejected"] + stats["gate_rejected"],
+        "evaluations": stats["tok"] + stats["lit"] + stats["asg"] + stats["slv"] + stats["mutants"] + stats["join"] + stats["gate"] + stats["scope"],
+        "distinct_nontrivial": stats["tok_out_of_range"] + stats["asg_accept"] + stats["slv_accept"] + stats["mutants_rejected"] + stats["join_rejected"] + stats["gate_rejected"] + stats["scope_rejected"],
         "rule": "evaluations = token streams + literal expressions + type pairs + constraint problems + program mutants, each run "
                 "through the real crates; non-trivial = out-of-range literals inside token streams + type pairs the kernel "
                 "accepts (consistent up to any-holes; most pairs differ in one deep position) + accepted constraint problems "
